@@ -23,7 +23,7 @@ structure StagesA (R : St → St → Prop) : Prop where
   setCfg : ∀ s : St, s.cfg = none → R s { s with cfg := some (initialCfg s.cfgIn) }
   setFail : ∀ (s : St) (n : Nat), R s { s with failN := n }
   setNow : ∀ (s : St) (n : Nat), R s { s with now := s.now + n }
-  setRr : ∀ s : St, R s { s with rr := (s.rr + 1) % 2 ^ 32 }
+  setRr : ∀ s : St, R s { s with rr := (s.rr + 1) % 2 ^ 64 }
   setHeld : ∀ (s : St) (hl : List (Nat × Nat)), R s { s with held := hl }
   addWaiter : ∀ (s : St) (w : Waiter), R s { s with waiters := s.waiters ++ [w] }
   dropWaiter : ∀ (s : St) (id : Nat), R s { s with waiters := s.waiters.filter fun x => x.id != id }
